@@ -5,8 +5,9 @@ use educe::Educe;
 use core::cmp::Ordering;
 #[derive(Educe)]
 #[educe(PartialEq)]
-pub struct T { #[educe(PartialEq(ignore = false))] state: A<0>, #[educe(PartialEq = false)] c: A<1> }
-pub fn values() -> Vec<T> { vec![T { state: A(0), c: A(0) }, T { state: A(0), c: A(1) }, T { state: A(0), c: A(7) }, T { state: A(1), c: A(0) }, T { state: A(1), c: A(1) }, T { state: A(1), c: A(7) }, T { state: A(7), c: A(0) }, T { state: A(7), c: A(1) }, T { state: A(7), c: A(7) }] }
-pub fn show(x: &T) -> String { #[allow(unused_variables)] match x { T { state: p0, c: p1 } => format!("T({},{})", sv(p0), sv(p1)) } }
-pub fn o_eq(a: &T, b: &T) -> bool { match (a, b) { (T { state: a0, c: a1 }, T { state: b0, c: b1 }) => (a0 == b0) } }
+#[educe(Eq)]
+pub enum T { Unit(A<0>, #[educe(PartialEq(method = m_eq))] A<1>, A<2>), C(), Some }
+pub fn values() -> Vec<T> { vec![T::Unit(A(0), A(0), A(0)), T::Unit(A(0), A(7), A(0)), T::Unit(A(7), A(0), A(0)), T::Unit(A(0), A(1), A(1)), T::Unit(A(0), A(7), A(7)), T::Unit(A(1), A(7), A(7)), T::Unit(A(1), A(1), A(1)), T::Unit(A(0), A(1), A(0)), T::Unit(A(0), A(0), A(1)), T::Unit(A(1), A(1), A(7)), T::Unit(A(7), A(1), A(7)), T::Unit(A(7), A(7), A(0)), T::Unit(A(1), A(1), A(0)), T::Unit(A(0), A(1), A(7)), T::Unit(A(7), A(1), A(0)), T::Unit(A(1), A(0), A(0)), T::C(), T::Some] }
+pub fn show(x: &T) -> String { #[allow(unused_variables)] match x { T::Unit(p0, p1, p2) => format!("Unit({},{},{})", sv(p0), sv(p1), sv(p2)), T::C() => format!("C()"), T::Some => format!("Some()") } }
+pub fn o_eq(a: &T, b: &T) -> bool { match (a, b) { (T::Unit(a0, a1, a2), T::Unit(b0, b1, b2)) => (a0 == b0) && m_eq(a1, b1) && (a2 == b2), (T::C(), T::C()) => true, (T::Some, T::Some) => true, _ => false } }
 pub fn run(out: &mut Out) { let vs = values(); for a in &vs { for b in &vs { let e = o_eq(a, b); out.check((a == b) == e, "eq_15", "eq", || format!("{} == {} expected {}", show(a), show(b), e)); out.check((a != b) == !e, "eq_15", "ne", || format!("{} != {} expected {}", show(a), show(b), !e)); } } }
